@@ -33,8 +33,8 @@ RULE = ("Hypothesis-generated histories: an option table of 2..8 options drawn f
         "(Boolean, Boolean+Auto, Integer, SignedInteger, Port, TimeInterval, DataSize, Float, String, Filename, "
         "LineList, CommaList, RouterList, *PortLines) with generated initial values, then 1..6 rounds of "
         "0..5 local steps (assign scalar / assign list / assign [] / append / extend / insert / remove / pop / "
-        "setitem / pop-until-empty / read / needs_save() / non-ASCII text for a String option (a save then fails "
-        "before sending; the text is corrected later) / an assignment that validation refuses - half of them "
+        "setitem / pop-until-empty / read / needs_save() / non-ASCII text for a String option or a non-number for a Float option (a save then fails "
+        "before sending; the value is corrected later) / an assignment that validation refuses - half of them "
         "right after a valid change of the same option -, attribute names in four spellings) each closed by a "
         "save() that the reference Tor accepts or refuses with 5xx, optionally followed by a second save(); "
         "plus 8 fixed scenarios; interpreted against a real TorConfig bootstrapped over a causal byte pipe from a "
@@ -73,6 +73,10 @@ ASSUMPTIONS = [
     "cfg.B = cfg.A (the list object read from an option of the same type, possibly carrying A's unsaved in-place "
     "edits) is an assignment of that list's current content to B; afterwards A and B are independent; not "
     "generated while an assignment to A is pending",
+    "a non-number assigned to a Float option (not validated on assignment): the assignment may be refused (then "
+    "nothing changes) or accepted; if accepted, save() cannot build a SETCONF from it and must fail without writing "
+    "anything - same oracle as for non-ASCII text: needs_save() stays True and the next save that can be sent names "
+    "every pending change; an implementation that sends the text for Tor to refuse ends the history, uncompared, counted",
     "refused assignments: values that neither Tor nor txtorcon's documented/tested validation can take (None or a "
     "word without digits for the Integer family, None or 'maybe' for Boolean+Auto, None or an int for a LineList) "
     "must raise; values Tor itself would accept ('4 KBytes', '10 MB', '1 hour', '1.5', 'auto', 'True', a bare str for "
@@ -118,6 +122,9 @@ def cases(draw, max_rounds=6):
             return {"op": "read", "o": o["name"], "case": draw(spell)}
         if kind == "assign_scalar":
             o = draw(st.sampled_from(scalars))
+            if o["type"] == "Float" and draw(st.integers(0, 3)) == 0:
+                # Float is not validated on assignment: a non-number only fails when save() builds the command
+                return {"op": "assign", "o": o["name"], "v": draw(st.sampled_from(cm.UNBUILDABLE_FLOATS)), "case": draw(spell)}
             if o["type"] in ("String", "Filename") and draw(st.integers(0, 5)) == 0:
                 # text Tor takes (ContactInfo, paths) but the ASCII control connection of txtorcon cannot carry
                 return {"op": "assign", "o": o["name"], "v": draw(st.sampled_from(cm.NON_ASCII_VALUES)), "case": draw(spell)}
@@ -151,15 +158,19 @@ def cases(draw, max_rounds=6):
     def chunk(draw):
         """One local step, or (one in six, if the table has an option with validation) an assignment that
         validation refuses - half of the time right after a valid change of the same option."""
-        texts = [o for o in scalars if o["type"] in ("String", "Filename")]
+        texts = [o for o in scalars if o["type"] in ("String", "Filename", "Float")]
         if texts and draw(st.integers(0, 11)) == 0:
-            # unsendable text, a save that therefore fails locally, the text corrected, a save that must carry all
+            # a value no SETCONF can be built from / carry, a save that therefore fails locally, the value
+            # corrected, a save that must carry everything
             o = draw(st.sampled_from(texts))
+            isf = o["type"] == "Float"
             seq = [draw(step()) for _ in range(draw(st.integers(0, 2)))]
-            seq.append({"op": "assign", "o": o["name"], "v": draw(st.sampled_from(cm.NON_ASCII_VALUES)), "case": draw(spell)})
+            seq.append({"op": "assign", "o": o["name"], "case": draw(spell),
+                        "v": draw(st.sampled_from(cm.UNBUILDABLE_FLOATS if isf else cm.NON_ASCII_VALUES))})
             seq.append({"op": "save", "accept": True, "again": False})
             seq += [draw(step()) for _ in range(draw(st.integers(0, 1)))]
-            seq.append({"op": "assign", "o": o["name"], "v": draw(cm.line_values()), "case": draw(spell)})
+            seq.append({"op": "assign", "o": o["name"], "case": draw(spell),
+                        "v": draw(cm.assign_values("Float") if isf else cm.line_values())})
             seq.append({"op": "save", "accept": draw(st.sampled_from([True, False])), "again": False})
             return seq
         if not refusable or draw(st.integers(0, 5)):
@@ -193,6 +204,14 @@ def cases(draw, max_rounds=6):
 
 # --------------------------------------------------------------------------- reference model
 
+def _floatable(v):
+    try:
+        float(v)
+        return True
+    except (TypeError, ValueError):
+        return False
+
+
 class _Opt(object):
     def __init__(self, name, typ, saved):
         self.name = name
@@ -205,6 +224,7 @@ class _Opt(object):
         self.touched = False
         self.seen = [saved]         # every value the option has had locally since the last ack
         self.desync = False         # the reference store knowingly lags (known finding)
+        self.unsendable = False     # the pending value is one that no SETCONF can be built from / carry
 
     def changed(self):
         if not self.touched:
@@ -268,6 +288,21 @@ class _Run(object):
                 raise HarnessError("case assigns a non-list to list option %s" % m.name)
             wire, view = None, list(v)
             self.res.label("assign-list" if v else "assign-empty-list")
+        elif m.typ == "Float" and not _floatable(v):
+            # not a number: the assignment may be refused at once (then nothing changes) or only by save()
+            try:
+                setattr(self.cfg, self.attr(m, s.get("case", 0)), v)
+            except Exception:
+                self.res.label("refused-assignment:Float")
+                self.wire_quiet(before, "the refused assignment %s = %r" % (m.name, v))
+                if not self.dead:
+                    self.do_needs_save()
+                return
+            self.res.label("assign-unbuildable-float")
+            m.kind, m.pending, m.wire, m.touched, m.unsendable = "assign", v, None, True, True
+            m.seen.append(v)
+            self.wire_quiet(before, "assigning %s" % m.name)
+            return
         else:
             wire, view = cm.ref_validated(m.typ, v)
             self.res.label("assign-scalar:" + m.typ)
@@ -277,6 +312,7 @@ class _Run(object):
             self.res.bad("assign-raised", "%s = %r raised %r" % (m.name, v, e))
             self.dead = True
             return
+        m.unsendable = False
         m.kind, m.pending, m.wire, m.touched = "assign", view, wire, True
         m.seen.append(view)
         self.wire_quiet(before, "assigning %s" % m.name)
@@ -489,7 +525,8 @@ class _Run(object):
         if not s["accept"]:
             sim.reject_next(552, "Unrecognized option: the reference Tor was told to refuse this SETCONF")
         c0, s0 = len(pipe.commands), len(sim.setconfs)
-        unsendable = [m for m in touched if not m.is_list and isinstance(m.pending, str) and not m.pending.isascii()]
+        unsendable = [m for m in touched if m.unsendable or (
+            not m.is_list and isinstance(m.pending, str) and not m.pending.isascii())]
         raised = None
         try:
             d = self.cfg.save()
@@ -506,7 +543,8 @@ class _Run(object):
             pipe.pump()
             sim.cancel_rejects()
             if sim.setconfs[s0:]:
-                res.excluded.append("non-ascii-value-was-sent")      # how such bytes are to be encoded is not stated
+                # how non-ASCII bytes are to be encoded is not stated; a non-number sent for Tor to refuse is defensible
+                res.excluded.append("unsendable-value-was-sent")
                 self.dead = True
                 return
             if raised is None and not w.failed:
@@ -786,6 +824,15 @@ def _fixed_cases():
         {"op": "setitem", "o": "DNSPort", "i": 0, "v": 0, "case": 0}, {"op": "append", "o": "DNSPort", "v": 9443, "case": 0},
         {"op": "append", "o": "LongLivedPorts", "v": 0, "case": 1}, sv(False, False), sv(True),
         {"op": "read", "o": "DNSPort", "case": 0}]}
+    # a Float that is not a number only fails when save() builds the command: nothing is lost
+    t5 = t2 + [O("PathsNeededToBuildCircuits", "Float", value=["0.600000"])]
+    for echo in (False, True):
+        yield {"opts": t5, "echo": echo, "steps": [
+            {"op": "assign", "o": "NumCPUs", "v": 4, "case": 0}, {"op": "append", "o": "Log", "v": "info stdout", "case": 0},
+            {"op": "assign", "o": "PathsNeededToBuildCircuits", "v": "fast", "case": 1},
+            {"op": "assign", "o": "SocksPort", "v": [9001], "case": 0},
+            sv(True, False), {"op": "needs_save"}, {"op": "assign", "o": "PathsNeededToBuildCircuits", "v": 0.75, "case": 0},
+            sv(False, False), sv(True)]}
     # text the ASCII control connection cannot carry: save() fails locally, nothing is lost
     yield {"opts": t2, "echo": False, "steps": [
         {"op": "assign", "o": "Nickname", "v": cm.NON_ASCII_VALUES[0], "case": 0},
@@ -1098,6 +1145,11 @@ def run(ctx):
 
 
 MUTANTS = [
+    ("failure-while-building-setconf-drops-pending", "txtorcon/torconfig.py",
+     "                value = self.parsers[real_name].parse(value)\n            self.config[real_name] = value",
+     "                try:\n                    value = self.parsers[real_name].parse(value)\n"
+     "                except (ValueError, TypeError):\n                    self.__dict__['unsaved'] = {}\n"
+     "                    raise\n            self.config[real_name] = value"),
     ("assigned-tracked-list-not-copied", "txtorcon/torconfig.py",
      "            if isinstance(value, list):\n                value = _ListWrapper(\n                    value, functools.partial(self.mark_unsaved, name))",
      "            if isinstance(value, list) and not isinstance(value, _ListWrapper):\n                value = _ListWrapper(\n"
